@@ -21,7 +21,7 @@ def run(tier, replay=None):
             return replay_one(ck, run_l2_part(Check("C09", tier, "model_checking"), "C09", "c09", "^$", {}, tier), replay, {})
         return replay_one(ck, rp, replay, env)
     res = run_symgo(mod, hp, "main", "^Harness_C09_", steps=5000000, env=env, maxpaths=2000000,
-                    timeout=600 if tier == "quick" else 3000)
+                    timeout=600 if tier == "quick" else 6000)
     ck.add_run(res)
     ck.handle_violations(res, rp, env=env, timeout=60)
     # the consequence clause end to end: accepted programs through the freshly built fc, their matches run on every value
